@@ -183,10 +183,10 @@ def judge_gossip(case, off=None):
     for e in case:
         if e["e"] == "Untouched" and not e["same"]:
             return False, "hostile announcements / blocks / txs changed a chain store or a pool"
-        if e["e"] == "TxSubmit" and e["ok"] != (3000 <= e["t"] < 4000):
+        if e["e"] == "TxVerdict" and e["ok"] != (3000 <= e["t"] < 4000):
             return False, "the pool %s tx %d" % ("accepted invalid" if e["ok"] else "refused valid", e["t"])
     produced = {e["b"] for e in case if e["e"] == "Produce"} | set(case[0].get("base", []))
-    accepted = {e["t"] for e in case if e["e"] == "TxSubmit" and e["ok"]}
+    accepted = {e["t"] for e in case if e["e"] == "TxVerdict" and e["ok"]}
     for e in case:
         if e["e"] == "State":
             if set(e["have"]) - produced or set(e["pool"]) - accepted:
